@@ -94,7 +94,7 @@ Section CliInfoProofs.
     12 + 4 * nblocks BLOCK (len blocks) <= LIMIT -> 12 + 4 * nblocks BLOCK (len blocks) < 2 ^ 32 ->
     len blocks < 2 ^ 63 ->
     (wc_encrypt cfg = true ->
-       (forall i c, len (tagf k n i c) = TAG) /\ nfull CHUNK (len (mid_of BLOCK cfg blocks)) + 2 < 2 ^ 32) ->
+       (forall i c, len (tagf k n i c) = TAG) /\ (nfull CHUNK (len (mid_of BLOCK cfg blocks)) + 2 < 2 ^ 32 /\ CHUNK + TAG <= 2 ^ 31)) ->
     exists s, open_stack a (wc_encrypt cfg) (wc_compress cfg) k n (len hdr) = Ok s /\
       exists last, top_sizes a (wc_encrypt cfg) (wc_compress cfg) k n s = Some (mkSI (map (@len N) (cblocks_of cfg blocks)) last).
   Proof.
@@ -108,8 +108,8 @@ Section CliInfoProofs.
       pose proof (nblocks_ok BLOCK (len blocks) HB) as Hnb.
       set (a := hdr ++ enc_format CHUNK ks tagc (comp_format BLOCK comp blocks)) in *.
       pose proof (cursor_refines a) as HC.
-      destruct (stack_open CHUNK TAG BLOCK LIMIT HCHUNK HTAG HB HB32 ks tagc Htagc comp dec Hdec hdr blocks _
-                  Hnb Hcs (conj Hl1 Hl2) HL He Hlen (Cursor a) _ HC (len hdr))
+      destruct (stack_open CHUNK TAG BLOCK LIMIT HCHUNK HTAG (proj2 He) HB HB32 ks tagc Htagc comp dec Hdec hdr blocks _
+                  Hnb Hcs (conj Hl1 Hl2) HL (proj1 He) Hlen (Cursor a) _ HC (len hdr))
         as (r & c & Hro & Hco & HRc).
       { split; [reflexivity|]. unfold a. rewrite len_app. lia. }
       exists c. split.
@@ -177,7 +177,7 @@ Section CliInfoProofs.
                    HCHUNK HTAG HCB HB HB32 HHlen wdec_wenc Hpubk Hwenc Hwtag cfg ct cm (w_out sf)).
         - cbn [bind]. intros Hx. injection Hx as <-. reflexivity.
         - intros Ec. destruct (Hc Ec) as (_ & _ & _ & Hx & _). exact Hx.
-        - intros Ee. destruct (He Ee) as (_ & _ & _ & Hx & _). exact Hx. }
+        - intros Ee. destruct (He Ee) as (_ & _ & _ & Hx & _). exact (proj1 Hx). }
       subst a. split; [exact Hw|]. unfold Cli.cmd_create. rewrite Hw. reflexivity.
     Qed.
 
@@ -237,7 +237,7 @@ Section CliInfoProofs.
          len (w_out sf) < 2 ^ 63).
       { rewrite Ecmp, Ecomp. exact Hc. }
       assert (He1 : wc_encrypt cfg1 = true ->
-         (forall i c, len (tagf (wc_key cfg1) (wc_nonce cfg1) i c) = TAG) /\ nfull CHUNK (len (mid_of BLOCK cfg1 (w_out sf))) + 2 < 2 ^ 32).
+         (forall i c, len (tagf (wc_key cfg1) (wc_nonce cfg1) i c) = TAG) /\ (nfull CHUNK (len (mid_of BLOCK cfg1 (w_out sf))) + 2 < 2 ^ 32 /\ CHUNK + TAG <= 2 ^ 31)).
       { rewrite Eenc, Hmid. intros Ee. destruct (Ekn Ee) as [-> ->]. destruct (He Ee) as (_ & _ & Htg & Hch & _). split; [exact Htg | exact Hch]. }
       rewrite Ha1 in Hsz.
       destruct (stack_opens CHUNK TAG CIPHERBUF BLOCK LIMIT FNMAX H pubk dh kdf wenc wdec wtag ksf tagf dec
